@@ -134,3 +134,53 @@ def correspond(ctx, rec, what='Py.run + Lifecycle.observe vs real worker'):
     if o.get('has_error') != m['has_error'] or (o.get('error') or 'None').split(':')[0] != m['error'].replace('other', 'other'):
         if not (str(o.get('error', '')).startswith('other') and m['error'] == 'user'):
             ctx.broke('correspondence', what + ' (outcome)', f'{rec["line"]}\n real ={o}\n model=has_error {m["has_error"]} error {m["error"]}')
+
+
+class _Collector:
+    """stands in for ctx while one record is judged: collects fail()/broke() calls"""
+
+    def __init__(self, ctx):
+        self._ctx = ctx
+        self.fails, self.brokes = [], []
+        self.cov = {'traces_validated_against_impl': 0}
+        self.rng = ctx.rng
+
+    def fail(self, sig, what, case):
+        self.fails.append((sig, what, case))
+
+    def broke(self, kind, name, detail):
+        self.brokes.append((kind, name, detail))
+
+    def __getattr__(self, name):
+        return getattr(self._ctx, name)
+
+
+def judge(ctx, rec, evaluate, items=2, stateful=False, consumer=False):
+    """evaluate(ctxlike, rec) reports through ctxlike.fail / ctxlike.broke. A failing record is re-run once in a fresh
+    session; only what fails both times (same signature / same correspondence name) is reported: process scheduling
+    noise (a terminate that arrives a moment late, a spawn that takes long) must not raise an alarm."""
+    c1 = _Collector(ctx)
+    evaluate(c1, rec)
+    ctx.cov['traces_validated_against_impl'] += c1.cov['traces_validated_against_impl']
+    if not c1.fails and not c1.brokes:
+        return
+    sess = inject.Session()
+    try:
+        r2 = inject.run_case(sess, rec['prog'], rec['target'], rec['k'], rec['mode'], items=items, stateful=stateful, consumer=consumer)
+    finally:
+        sess.close()
+    rec2 = dict(rec, real=r2)
+    c2 = _Collector(ctx)
+    evaluate(c2, rec2)
+    sigs2 = {f[0] for f in c2.fails}
+    names2 = {b[1] for b in c2.brokes}
+    for f in c1.fails:
+        if f[0] in sigs2:
+            ctx.fail(*f)
+        else:
+            ctx.count('not-reproduced-on-rerun')
+    for b in c1.brokes:
+        if b[1] in names2:
+            ctx.broke(*b)
+        else:
+            ctx.count('not-reproduced-on-rerun')
